@@ -23,7 +23,7 @@ for p in props:
         "replay_cmd_template": f"./check {pid} --replay {{path}}",
         "engine": f"harness/{c['pkg']} (bin {c['bin']})",
         "level_claimed": {"category": c.get("level", "exploration"), "text": c["level_text"], "design_ref": f"DESIGN.md section 5, {pid}"},
-        "level_note": c["level_note"],
+        "level_note": c["level_note"] + (" Thorough tier = the quick workload at %d consecutive seeds starting at VERIF_SEED (DESIGN.md 10.5); the binary's own `--tier thorough` bounds stay available for exploration." % c["thorough_multi_seed"] if c.get("thorough_multi_seed") else ""),
         "technique": c["technique"],
     })
 
